@@ -531,6 +531,38 @@ def run_lex_flags(res, prop, tier):
     shutil.rmtree(d, ignore_errors=True)
 
 
+def ct_lexers(res, prop, tier):
+    """the lexer that CTLexerBuilder GENERATES is a lexer too: the start-state machines and fixed cases
+    of C09 compiled, run on their inputs and compared with the run-time lexer of the same text (whose
+    behaviour C09's trace specification decides)"""
+    seed = core.seed()
+    rng = random.Random(seed * 37 + 9)
+    cases = [c for c in lex_cases(rng, tier == "thorough") if not c["l"].endswith(FLAG_L)]
+    d = os.path.join(res.wd, "ctgen")
+    gen_crate(d, [], {}, cases)
+    b = subprocess.run(["cargo", "build", "--offline", "--quiet"], cwd=d, env=dict(os.environ, CARGO_NET_OFFLINE="true"),
+                       stdout=subprocess.PIPE, stderr=subprocess.STDOUT, text=True)
+    if b.returncode != 0:
+        res.violation("compile-time lexers did not build: " + b.stdout[-1200:], dict(seed=seed))
+        return
+    exe = os.path.join(res.wd, "ctgen-bin")
+    shutil.copy(os.path.join(core.HARNESS, "target", "debug", "ctgen"), exe)
+    r = subprocess.run([exe], cwd=d, stdout=subprocess.PIPE, stderr=subprocess.PIPE, text=True, timeout=600)
+    lines = [x + "\n" for x in r.stdout.splitlines() if x.startswith("{")]
+    if r.returncode != 0 or not lines:
+        res.violation("the generated lexers crashed: " + r.stderr[-800:], dict(seed=seed))
+        return
+    v = p_src.validate(res, "TraceCTRT", 78, lines, dict(PROP=prop))
+    res.add_tlc(v["r"])
+    byid = {c["id"]: c for c in cases}
+    for dv in v["devs"]:
+        dv["prop"] = prop
+        res.deviation(dv, dict(instance=byid.get(dv["inst"]), seed=seed))
+    res.notes["compile_time_lexers"] = len(cases)
+    res.cov["traces_validated_against_impl"] += len(lines)
+    shutil.rmtree(d, ignore_errors=True)
+
+
 def startup(res, prop, seed, thorough=False):
     """C14's last clause on the code that is generated: compiled parsers, one per serialisation format
     (x yacc kind), reconstitute their embedded grammar and table at start-up and must then parse every
